@@ -86,9 +86,8 @@ def build(u):
         with u.mod("result", uses="use super::error::Error;"):
             u.raw("pub type Result<T> = core::result::Result<T, Error>;", names=("Result",))
         with u.mod("constants"):
-            for n in ("WIRE_SERVER_IP", "WIRE_SERVER_PORT", "GA_PLUGIN_IP", "GA_PLUGIN_PORT", "IMDS_IP", "IMDS_PORT", "PROXY_AGENT_IP", "PROXY_AGENT_PORT",
-                      "CLAIMS_IS_ROOT", "CLAIMS_HEADER", "AUTHORIZATION_HEADER", "DATE_HEADER", "AUTHORIZATION_SCHEME"):
-                u.take(consts, n, "const")
+            # every constant of the file (an edit may start using one that the pinned code does not use, or add one)
+            u.take_all_consts(consts)
         stubs.agent_logger_mod(u)
         with u.mod("hyper_client", uses="use http::Uri;\nuse http::request::Parts;\nuse hyper::body::Bytes;\nuse http_body_util::combinators::BoxBody;"):
             u.take_fn(hc, "should_skip_sig", external_body=True, contract="        ensures r == skip_spec(*method, *relative_uri),\n")
